@@ -49,6 +49,9 @@ impl OrphanBroker {
             return;
         }
 
+        #[cfg(feature = "verif-hooks")]
+        crate::verif::gate("search_orphan_leader:after-status", &leader_hash);
+
         let leader_is_pending_verify = self.is_pending_verify.contains(&leader_hash);
         if !leader_is_pending_verify && !leader_status.contains(BlockStatus::BLOCK_STORED) {
             trace!(
